@@ -223,6 +223,15 @@ def check(recipe) -> list[Fail]:
                 mol.extend_bonds([lambda b: [b], lambda b: (b,), lambda b: (x for x in [b]), lambda b: iter([b])][(op[1] + op[2]) % 4](bond))
             model.add(f, None, None)   # adopted without coordinates: any row, but a row
             model.bonds.append(frozenset((id(a), id(f))))
+        elif name == "self_bond":
+            # a bond from an atom to itself: an odd but legal member of the bond list (connect(x, x) makes it)
+            if n < 1:
+                continue
+            a = model.atoms[op[1] % n]
+            if frozenset((id(a),)) in model.bonds:
+                continue
+            mol.connect(a, a)
+            model.bonds.append(frozenset((id(a), id(a))))
         elif name == "bond_two_foreign":
             # a bond BOTH of whose ends are new to the molecule: both are adopted (no coordinates / charges given: any row, but a row)
             f1, f2 = newatom(op[1]), newatom(op[1] + 1)
@@ -383,6 +392,7 @@ def _ops(maxlen):
         st.tuples(st.just("sub_write"), st.lists(_i, min_size=1, max_size=4), st.floats(-3, 3, width=32)).map(list),
         st.tuples(st.just("view_reuse"), _i, st.floats(-3, 3, width=32)).map(list),
         st.tuples(st.just("bond_two_foreign"), _i, _i).map(list),
+        st.tuples(st.just("self_bond"), _i).map(list),
         st.tuples(st.just("sub_del_bond"), st.lists(_i, min_size=2, max_size=5), _i).map(list),
     )
     return st.lists(op, min_size=1, max_size=maxlen)
@@ -415,7 +425,7 @@ _ALPHA = [
     ["connect", 1, 2, 1], ["append_bond", 0, 2, 2], ["append_bond_foreign", 0, 3, True], ["append_bonds_foreign", 1, 0, False], ["extend_bonds_foreign", 2, 1, True],
     ["append_bond_readopt", 0, 0, True], ["append_bond_steal", 1, 1, False],
     ["sub_del_bond", [0, 1, 2], 0],
-    ["del_bond", 0], ["remove_substituent", 0, True], ["remove_substituent", 0, False], ["add_implicit_hydrogens"], ["sub_write", [0, 2], 1.5], ["view_reuse", 0, 0.5], ["bond_two_foreign", 4, 1],
+    ["del_bond", 0], ["remove_substituent", 0, True], ["remove_substituent", 0, False], ["add_implicit_hydrogens"], ["sub_write", [0, 2], 1.5], ["view_reuse", 0, 0.5], ["bond_two_foreign", 4, 1], ["self_bond", 0],
 ]
 
 
